@@ -216,6 +216,15 @@ def _f(v, d=0.0):
       return d
 
 
+def replay_adapter(w):
+  from dinosaur import time_integration as ti
+  f = ti.leapfrog_step_filter(lambda x: ('filtered', x))
+  u, u_next = ('u.previous', 'u.current'), ('next.current', 'next.future')
+  got = f(u, u_next)
+  want = ('next.current', ('filtered', 'next.future'))
+  return got != want, f'leapfrog_step_filter(state_filter)(u={u}, u_next={u_next}) returned {got}; the adapter must return (u_next[0], state_filter(u_next[1])) = {want}'
+
+
 def replay_filters(w):
   """Real filters on a small grid: the counter-model's parameters first, then a small parameter grid around them
   (uninterpreted exp/pow can make a counter-model spurious; a violation is only reported as replayed if the real code fails)."""
@@ -267,6 +276,6 @@ def clauses():
       Clause('smt:horizontal_diffusion_step_filter: finite for dt, tau > 0, half-step twice == full step, top mode damped by exp(-dt/tau)', 'smt',
              [TI + 'horizontal_diffusion_step_filter', TI + 'runge_kutta_step_filter', FI + 'horizontal_diffusion_filter'],
              rc(step_semigroup_contract, 5, which='diffusion'), replay=replay_filters, group='pyvc'),
-      Clause('smt:leapfrog_step_filter filters the future slice only', 'smt', [TI + 'leapfrog_step_filter'], rc(leapfrog_adapter_contract, 2), group='pyvc'),
+      Clause('smt:leapfrog_step_filter filters the future slice only', 'smt', [TI + 'leapfrog_step_filter'], rc(leapfrog_adapter_contract, 2), replay=replay_adapter, group='pyvc'),
       Clause('canary:exponential filter factor == 1 everywhere must fail', 'smt', [FI + 'exponential_filter'], rc(canary_contract, 1), canary=True, group='pyvc'),
   ]
